@@ -177,6 +177,8 @@ def cls_src(t, defs):
                 opts.append(f'default={dflt_src(d)}')
         if not f.get('init', True):
             opts.append('init=False')
+        if f.get('kw_only'):
+            opts.append('kw_only=True')
         lk = f.get('load_keys') or []
         if lk or f.get('dump_skip'):
             keys = repr(lk[0]) if len(lk) == 1 else repr(tuple(lk)) if lk else repr(f['name'])
@@ -198,6 +200,11 @@ def cls_src(t, defs):
         lines.append(f'    {f["name"]}: {ann}' + (f' = {rhs}' if rhs is not None else ''))
     if not info['fields']:
         lines.append('    pass')
+    posts = [f for f in info['fields'] if f.get('post') is not None]
+    if posts:
+        lines.append('    def __post_init__(self):')
+        for f in posts:
+            lines.append(f'        self.{f["name"]} = {lit_src(f["post"])}')
     src = '\n'.join(lines) + '\n'
     if meta is not None and not wizard:
         items = meta_items(meta)
@@ -347,7 +354,8 @@ def enc_info(info):
             'fields': [{'name': f['name'], 'dflt': enc_dflt(f.get('dflt')), 'factory': bool(f.get('factory')),
                         'init': f.get('init', True), 'load_keys': list(f.get('load_keys') or []),
                         'dump_all': bool(f.get('dump_all')), 'dump_skip': bool(f.get('dump_skip')),
-                        'skip_if': enc_cond(f.get('skip_if')), 'catch_all': bool(f.get('catch_all'))}
+                        'skip_if': enc_cond(f.get('skip_if')), 'catch_all': bool(f.get('catch_all')),
+                        'post': enc_lit(f.get('post'))}
                        for f in info['fields']]}
 
 
